@@ -395,3 +395,206 @@ Example C14_swap_gate_nonvacuous :
   cls (GenesisSwap.mkGen [(0%nat, 2%nat)] 0 [] [GenesisSwap.mkGS 1 0 2 10]) = RPanic /\
   cls (GenesisSwap.mkGen [(0%nat, 2%nat)] 0 [p; p] [GenesisSwap.mkGS 1 0 2 10]) = RPanic.
 Proof. vm_compute. repeat split; reflexivity. Qed.
+
+(** * x/hard on REACHABLE states: the hypotheses of the round trip moved from the state to the history *)
+From Kava Require Import Model.Hard Proofs.Hard Proofs.HardInv Proofs.HardSync Model.GenesisHard Proofs.GenesisHard Proofs.GenesisHardReach.
+
+(* [Ready0] is [Ready] without the bound on the SUPPLY interest factors, which the round trip does
+   not need (and which no hypothesis on the oracle values gives: a block's supply factor divides
+   by cash + borrows - reserves) *)
+Theorem C14_hard_roundtrip_without_supply_bound :
+  forall e s, Ready0 e s ->
+  export_genesis e s = Ok (the_genesis e s) tt /\
+  validate_genesis (the_genesis e s) = true /\
+  exists s', init_genesis e s (the_genesis e s) = Ok s' tt /\ reimport e s = Ok s' tt /\ Imported e s s'.
+Proof. exact roundtrip0. Qed.
+Print Assumptions C14_hard_roundtrip_without_supply_bound.
+
+Theorem C14_hard_imported_invariant_without_supply_bound :
+  forall e s s', Ready0 e s -> positions_in_params e s -> Imported e s s' -> HInv e s'.
+Proof. exact imported_inv0. Qed.
+Print Assumptions C14_hard_imported_invariant_without_supply_bound.
+
+(* the part of [Ready] that IS an invariant of reachable states: accrual times are never unset,
+   and every begin blocker that does not panic leaves every money market of the params with one *)
+Theorem C14_hard_begin_blocker_sets_accrual_times :
+  forall e s t fs s', begin_block e s t fs = Ok s' tt ->
+  (forall d, prev s d <> None -> prev s' d <> None) /\
+  (forall d m, (d < nd e)%nat -> params s' d = Some m -> prev s' d <> None).
+Proof. exact begin_block_prev. Qed.
+Print Assumptions C14_hard_begin_blocker_sets_accrual_times.
+
+(* one begin blocker multiplies a borrow factor by at most the interval's factor plus 10^-18 *)
+Theorem C14_hard_begin_blocker_factor_growth :
+  forall e s t fs s', begin_block e s t fs = Ok s' tt -> HInv e s ->
+  forall d, ((nd e <= d)%nat -> bfac s' d = bfac s d) /\
+            dflt (bfac s' d) * PREC <= dflt (bfac s d) * (Z.max PREC (nthZ fs d) + 1).
+Proof. exact begin_block_bf. Qed.
+Print Assumptions C14_hard_begin_blocker_factor_growth.
+
+(* THE ROUND TRIP ON REACHABLE STATES, hypotheses on the HISTORY only: from every genesis of the
+   machine (valid genesis markets), along every history  ops1 ++ BeginBlock t fs :: ops2  whose
+   SetParams carry valid markets ([op_ok]), whose per-denom product of interval borrow factors
+   (each + 10^-18) is at most 10^18 ([within_budget]), whose distinguished begin blocker has
+   oracle factors >= 1.0 and is followed by no SetParams: that begin blocker does not panic,
+   ExportGenesis at the end does not panic, the export validates, InitGenesis does not panic
+   and the imported state is [Imported] (component by component the exported one, positions
+   synced). *)
+Theorem C14_hard_roundtrip_reachable :
+  forall e bals prices prevs mms ops1 t fs ops2,
+  let ops := ops1 ++ BeginBlock t fs :: ops2 in
+  let s := run e (mk_state bals prices prevs mms) ops in
+  0 <= min_borrow e ->
+  (forall d m, nthO mms d = Some m -> market_valid m = true) ->
+  Forall op_ok ops ->
+  within_budget e ops ->
+  (forall d, (d < nd e)%nat -> PREC <= nthZ fs d) ->
+  Forall no_setparams ops2 ->
+  Ready0 e s /\
+  export_genesis e s = Ok (the_genesis e s) tt /\
+  validate_genesis (the_genesis e s) = true /\
+  exists s', reimport e s = Ok s' tt /\ Imported e s s'.
+Proof. exact roundtrip_reachable. Qed.
+Print Assumptions C14_hard_roundtrip_reachable.
+
+(* the same from any state that already satisfies the invariants (e.g. an imported one), along
+   any history without parameter changes *)
+Theorem C14_hard_ready_preserved :
+  forall e s ops, HInv e s -> MV s -> PV e s -> 0 <= min_borrow e ->
+  (forall d, (nd e <= d)%nat -> dflt (bfac s d) = PREC) ->
+  (forall d, (d < nd e)%nat -> dflt (bfac s d) * bnum d ops <= PREC * PREC * bden ops) ->
+  Forall no_setparams ops ->
+  Ready0 e (run e s ops).
+Proof. exact ready_reachable_from. Qed.
+Print Assumptions C14_hard_ready_preserved.
+
+(* a SetParams that lists only markets which already have an accrual time keeps "every params
+   market has an accrual time"; only a NEW market breaks it (C14_hard_export_new_market_refuted) *)
+Theorem C14_hard_setparams_known_markets :
+  forall e s ps, (forall d m, (d < nd e)%nat -> nth d ps None = Some m -> prev s d <> None) ->
+  PV e (step' e s (SetParams ps)).
+Proof. exact setparams_PV. Qed.
+Print Assumptions C14_hard_setparams_known_markets.
+
+(* REFUTED without the budget: a state satisfying the boolean invariant, with a valid money market
+   that has an accrual time, whose borrow factor is 3*10^18: a one-unit borrow taken at that
+   factor makes loadSyncedBorrow compute 1/(3*10^18) = 0 (18 decimals), "interest" -1, and
+   ExportGenesis panics.  (Reaching it needs an interval factor of that size from the oracle.) *)
+Theorem C14_hard_unbounded_factor_refuted :
+  exists e s, inv_b e s = true /\ (forall d m, params s d = Some m -> market_valid m = true /\ prev s d <> None) /\
+              reimport e s = Panic.
+Proof.
+  exists wb_env, wb_state. destruct unbounded_factor_export_panics as (A & B & C & _ & E).
+  split; [exact A|]. split; [|exact E]. intros d m P. destruct d; cbn in P; [|discriminate].
+  injection P as <-. split; [exact B|]. rewrite C. discriminate.
+Qed.
+Print Assumptions C14_hard_unbounded_factor_refuted.
+
+(* non-vacuity: deposit, borrow, a begin blocker with interval factor 1.1, a repayment: the
+   hypotheses on the history hold, the borrow factor is 1.1 and the re-import goes through *)
+Example C14_hard_reachable_nonvacuous :
+  let e := mk_env 1 1 0 in
+  let m := mkMarket 1 (PREC / 2) false 0 0 0 0 0 0 0 in
+  let ops := [Deposit 0 [(0%nat, 1000)]; Borrow 0 [(0%nat, 100)]] ++ BeginBlock 100 [PREC + PREC / 10] :: [Repay 0 0 [(0%nat, 10)]] in
+  let s := run e (mk_state [[1000]; [0]; [0]] [PREC] [Some 5] [Some m]) ops in
+  market_valid m = true /\ Forall op_ok ops /\ within_budget e ops /\
+  bfac s 0%nat = Some (PREC + PREC / 10) /\ option_map (fun r => amt r 0%nat) (bor s 0%nat) = Some 100 /\
+  class_of (reimport e s) = ROk.
+Proof.
+  cbv zeta. split; [reflexivity|]. split; [repeat constructor|]. split.
+  - intros d Hd. destruct d; [|cbn in Hd; lia]. vm_compute. discriminate.
+  - repeat split; vm_compute; reflexivity.
+Qed.
+
+(** * x/incentive: the invariant of C09 AFTER an import, equality of the whole projection *)
+From Kava Require Import Model.Accumulator Model.Incentive Proofs.Incentive Model.GenesisIncentive Proofs.GenesisIncentive Proofs.GenesisIncentiveInv.
+
+(* [Tight e st]: no claim of a user outside the universe; a user without a claim has no stored
+   reward and no user indexes; no global index and no stored reward in a reward denom outside
+   the universe; block time and accrual times are not the zero time.  Every operation of the
+   machine keeps it (given C09's invariant, reward periods that reward denoms of the universe only
+   and times that are not the zero time) *)
+Theorem C14_incentive_tight_preserved :
+  forall e st o st', env_adm e -> Inv e st -> Tight e st -> op_adm o -> step e st o = Ok st' tt -> Tight e st'.
+Proof. exact step_tight. Qed.
+Print Assumptions C14_incentive_tight_preserved.
+
+Theorem C14_incentive_tight_preserved_with_params :
+  forall xs o xs', GInv xs -> xop_adm (ndenoms (x_env xs)) o -> xstep xs o = Ok xs' tt -> GInv xs'.
+Proof. exact xstep_ginv. Qed.
+Print Assumptions C14_incentive_tight_preserved_with_params.
+
+(* the invariant of C09 holds again after the import (and so does the strengthening) *)
+Theorem C14_incentive_imported_invariant :
+  forall e st st', Inv e st -> Tight e st -> reimport e st = Ok st' tt -> Inv e st' /\ Tight e st'.
+Proof. exact imported_invariant. Qed.
+Print Assumptions C14_incentive_imported_invariant.
+
+(* the whole projection compared with the implementation is equal, and so is what
+   GetSynchronizedClaim reports for every user and reward denom *)
+Theorem C14_incentive_roundtrip_observably_equal :
+  forall e st st', Inv e st -> Tight e st -> reimport e st = Ok st' tt ->
+  project e st' = project e st /\ forall u d, pending e st' u d = pending e st u d.
+Proof. exact roundtrip_observably_equal. Qed.
+Print Assumptions C14_incentive_roundtrip_observably_equal.
+
+(* all histories of the abstract machine (operations, SetParams, re-imports interleaved) from
+   every genesis, hypotheses on the environment and the history only *)
+Theorem C14_incentive_roundtrip_all_histories :
+  forall e t0 m0 gt0 tot0 ops,
+  env_wf e -> env_adm e -> t0 <> ZERO_T ->
+  (forall p x, gt0 p = Some x -> x <= t0 /\ x <> ZERO_T) -> (forall p, 0 <= tot0 p) ->
+  Forall (gop_adm (ndenoms e)) ops ->
+  let xs := gxrun (mkX e (init t0 m0 gt0 tot0)) ops in
+  Inv (x_env xs) (x_st xs) /\
+  validate_genesis (export_genesis (x_env xs) (x_st xs)) = true /\
+  exists st', reimport (x_env xs) (x_st xs) = Ok st' tt /\
+    Inv (x_env xs) st' /\ OverInv (x_env xs) st' /\
+    project (x_env xs) st' = project (x_env xs) (x_st xs).
+Proof. exact reimport_all_histories. Qed.
+Print Assumptions C14_incentive_roundtrip_all_histories.
+
+(* the same for the very machine the correspondence check runs (Model/GenesisIncentive.v gapply:
+   lists of operations with re-tabulation after each, re-imports, probes) *)
+Theorem C14_incentive_roundtrip_all_checked_histories :
+  forall e t0 m0 gt0 tot0 ks,
+  env_wf e -> env_adm e -> t0 <> ZERO_T ->
+  (forall p x, gt0 p = Some x -> x <= t0 /\ x <> ZERO_T) -> (forall p, 0 <= tot0 p) ->
+  Forall (gstepk_adm (ndenoms e)) ks ->
+  let xs := gk_run (mkX e (init t0 m0 gt0 tot0)) ks in
+  Inv (x_env xs) (x_st xs) /\
+  exists xs', gapply xs GReimport = Ok xs' tt /\ x_env xs' = x_env xs /\
+    Inv (x_env xs) (x_st xs') /\ OverInv (x_env xs) (x_st xs') /\
+    project (x_env xs) (x_st xs') = project (x_env xs) (x_st xs).
+Proof. exact reimport_all_checked_histories. Qed.
+Print Assumptions C14_incentive_roundtrip_all_checked_histories.
+
+(* REFUTED without [env_adm] (a statement about the finite universe of the MODEL, not a defect of
+   x/incentive): a reward period that rewards a denom outside the model's reward-denom universe
+   makes the global index of that denom grow; the export lists the universe only; after the
+   import the exactness identity of C09's invariant fails for that denom *)
+Theorem C14_incentive_outside_universe_refuted :
+  exists e st st', env_wf e /\ Inv e st /\ reimport e st = Ok st' tt /\ ~ Inv e st' /\ ~ env_adm e.
+Proof. exists wi_env, wi_st, wi_st'. exact outside_universe_breaks_imported_invariant. Qed.
+Print Assumptions C14_incentive_outside_universe_refuted.
+
+(* non-vacuity: a claim with an unsynchronised index and a stored reward, a second user without
+   claim, a re-import and a parameter change mid-history; the hypotheses on the history hold, the
+   import succeeds and the projection is identical *)
+Example C14_incentive_invariant_nonvacuous :
+  let e := mk_env 2 1 1 [Some (mk_period 0 (1000 * NS) [5])] (2000 * NS) false in
+  let ops := [GX (O (Change 0 0 PREC PREC)); GX (O (Block (20 * NS))); GX (O (Change 0 0 (2 * PREC) (2 * PREC)));
+              GX (O (Block (30 * NS))); GRe; GX (SetParams [Some (0, 500 * NS, [7])] (900 * NS)); GX (O (Block (40 * NS)))] in
+  let xs := gxrun (mkX e (init (10 * NS) (fun _ => 1000) (fun _ => Some (10 * NS)) (fun _ => 0))) ops in
+  Forall (gop_adm 1) ops /\ rew (x_st xs) 0%nat 0%nat = 50 /\ pending (x_env xs) (x_st xs) 0%nat 0%nat = 170 /\
+  has_claim (x_st xs) 1%nat = false /\
+  match reimport (x_env xs) (x_st xs) with
+  | Ok st' _ => project (x_env xs) st' = project (x_env xs) (x_st xs) /\ pending (x_env xs) st' 0%nat 0%nat = 170
+  | _ => False
+  end.
+Proof.
+  cbv zeta. split.
+  - repeat apply Forall_cons; try apply Forall_nil; cbn [gop_adm xop_adm op_adm]; try exact Logic.I; try (unfold ZERO_T, NS; lia).
+    intros r [E|[]]. inversion E; subst. cbn [raw_adm length]. unfold ZERO_T, NS. split; lia.
+  - vm_compute. repeat split; reflexivity.
+Qed.
